@@ -49,6 +49,14 @@ def explore(ctx, depth):
         {'k': 'note', 'pre': [], 'dur': {'num': '4', 'rat': None, 'dots': 1, 'grace': ''}, 'mid': [], 'pitch': 'c', 'post1': [], 'acc': '', 'disp': '', 'post2': []},
         {'k': 'note', 'pre': [], 'dur': {'num': '4', 'rat': None, 'dots': 0, 'grace': ''}, 'mid': [], 'pitch': 'c', 'post1': [], 'acc': 'n', 'disp': '', 'post2': []},
         {'k': 'note', 'pre': [], 'dur': {'num': '8', 'rat': None, 'dots': 0, 'grace': ''}, 'mid': [], 'pitch': 'ff', 'post1': [], 'acc': '#', 'disp': 'X', 'post2': ['J']},
+        # the editorial signifier with its footnote mark (`y@`, `yy@`): the one signifier whose text contains a separator character - on a chord note
+        # that is not the last, on the last, and on a single note
+        {'k': 'chord', 'es': [{'k': 'note', 'pre': [], 'dur': {'num': '4', 'rat': None, 'dots': 0, 'grace': ''}, 'mid': [], 'pitch': 'c', 'post1': [], 'acc': '', 'disp': '', 'post2': ['yy@']},
+                              {'k': 'note', 'pre': [], 'dur': {'num': '4', 'rat': None, 'dots': 0, 'grace': ''}, 'mid': [], 'pitch': 'e', 'post1': [], 'acc': '', 'disp': '', 'post2': []},
+                              {'k': 'note', 'pre': [], 'dur': {'num': '4', 'rat': None, 'dots': 0, 'grace': ''}, 'mid': [], 'pitch': 'g', 'post1': [], 'acc': '', 'disp': '', 'post2': ['y@']}]},
+        {'k': 'chord', 'es': [{'k': 'note', 'pre': [], 'dur': {'num': '4', 'rat': None, 'dots': 0, 'grace': ''}, 'mid': [], 'pitch': 'c', 'post1': [], 'acc': '', 'disp': '', 'post2': ['y@', 'L']},
+                              {'k': 'note', 'pre': [], 'dur': {'num': '4', 'rat': None, 'dots': 0, 'grace': ''}, 'mid': [], 'pitch': 'e', 'post1': [], 'acc': '', 'disp': '', 'post2': []}]},
+        {'k': 'note', 'pre': [], 'dur': {'num': '4', 'rat': None, 'dots': 0, 'grace': ''}, 'mid': [], 'pitch': 'c', 'post1': [], 'acc': '', 'disp': '', 'post2': ['yy@']},
     ] + cells
     r0 = ctx.driver.ask([{'op': 'abs.tokof', 'cell': c} for c in cells])
     toks = []
